@@ -1,6 +1,6 @@
 /-
 Helper lemmas for `ParseLocal` (Lemmas/ParseLocal.lean), part 1 and 2: two byte buffers that agree
-up to and including an index `P` holding a line feed, and the C-library number readers of
+up to and including an index `P` holding a line feed (or a carriage return), and the C-library number readers of
 `Model/Prim.lean` on such buffers.
 
 Compare `Lemmas/Isolation.lean` (`Agree`): there the stopper at `P` is a NUL; here it is the line
@@ -16,13 +16,29 @@ open ScpiVerif ScpiVerif.Lexer
 open ScpiVerif.Lemmas.Isolation (getD_drop sgnStep pfxStep strtoSyntax_eq dLower dWord dSign dFrac dExp dHexCond
   dBody strtodLen_eq)
 
-/-- same length, same bytes at every index `≤ P`, and a line feed at index `P` -/
+/-- the stopper bytes: line feed and carriage return (the last byte of a terminated message) -/
+def stp (b : UInt8) : Bool := b == 10 || b == 13
+
+theorem stp_cases {b : UInt8} (h : stp b = true) : b = 10 ∨ b = 13 := by
+  simpa [stp] using h
+
+/-- a byte of a class that contains neither stopper is not a stopper -/
+theorem not_stp_of {p : UInt8 → Bool} (h10 : p 10 = false) (h13 : p 13 = false) {b : UInt8}
+    (hb : p b = true) : stp b = false := by
+  cases hs : stp b with
+  | false => rfl
+  | true =>
+    rcases stp_cases hs with rfl | rfl
+    · rw [h10] at hb; cases hb
+    · rw [h13] at hb; cases hb
+
+/-- same length, same bytes at every index `≤ P`, and a line feed (or CR) at index `P` -/
 structure AgreeL (P : Nat) (b1 b2 : Bytes) : Prop where
   len : b1.length = b2.length
   eq : ∀ i, i ≤ P → b1.getD i 0 = b2.getD i 0
-  lf : b1.getD P 0 = 10
+  lf : stp (b1.getD P 0) = true
 
-theorem AgreeL.lf2 {P : Nat} {b1 b2 : Bytes} (h : AgreeL P b1 b2) : b2.getD P 0 = 10 := by
+theorem AgreeL.lf2 {P : Nat} {b1 b2 : Bytes} (h : AgreeL P b1 b2) : stp (b2.getD P 0) = true := by
   rw [← h.eq P (Nat.le_refl _)]; exact h.lf
 
 theorem AgreeL.symm {P : Nat} {b1 b2 : Bytes} (h : AgreeL P b1 b2) : AgreeL P b2 b1 :=
@@ -36,11 +52,11 @@ theorem AgreeL.mrd {P : Nat} {b1 b2 : Bytes} (h : AgreeL P b1 b2) {i : Nat} (hi 
 
 /-- a byte other than the line feed at an index `≤ P` is strictly before `P` -/
 theorem AgreeL.lt_of_ne {P : Nat} {b1 b2 : Bytes} (h : AgreeL P b1 b2) {i : Nat} (hi : i ≤ P)
-    (hne : b1.getD i 0 ≠ 10) : i < P := by
+    (hne : stp (b1.getD i 0) = false) : i < P := by
   rcases Nat.lt_or_ge i P with h1 | h1
   · exact h1
   · have : i = P := by omega
-    subst this; exact absurd h.lf hne
+    subst this; rw [h.lf] at hne; cases hne
 
 /-- the tail from `off` agrees up to the (shifted) line feed -/
 theorem AgreeL.drop {P : Nat} {b1 b2 : Bytes} (h : AgreeL P b1 b2) (off : Nat) (ho : off ≤ P) :
@@ -100,7 +116,7 @@ theorem AgreeL.set {P : Nat} {b1 b2 : Bytes} (h : AgreeL P b1 b2) (i : Nat) (x :
 
 /-- from the hypotheses of `ParseLocal` -/
 theorem AgreeL.of_take {b1 b2 : Bytes} {k : Nat} (hl : b1.length = b2.length) (hk : k ≤ b1.length)
-    (ht : b1.take k = b2.take k) (hlast : (b1.take k).getLast? = some 10) :
+    (ht : b1.take k = b2.take k) {x : UInt8} (hlast : (b1.take k).getLast? = some x) (hx : stp x = true) :
     0 < k ∧ AgreeL (k - 1) b1 b2 := by
   have hk0 : 0 < k := by
     rcases Nat.eq_zero_or_pos k with h0 | h0
@@ -117,6 +133,7 @@ theorem AgreeL.of_take {b1 b2 : Bytes} {k : Nat} (hl : b1.length = b2.length) (h
     have e : min k b1.length - 1 = k - 1 := by omega
     rw [e, if_pos (by omega)] at hlast
     simp only [List.getD_eq_getElem?_getD, hlast, Option.getD_some]
+    exact hx
 
 /-! # strtol / strtoul / strtod -/
 
@@ -124,11 +141,11 @@ section
 variable {P : Nat} {b1 b2 : Bytes}
 
 /-- a byte other than the line feed read at `i ≤ P` leaves the next index `≤ P` -/
-theorem AgreeL.rd_next (h : AgreeL P b1 b2) {i : Nat} (hi : i ≤ P) (hne : Prim.rd b1 i ≠ 10) :
+theorem AgreeL.rd_next (h : AgreeL P b1 b2) {i : Nat} (hi : i ≤ P) (hne : stp (Prim.rd b1 i) = false) :
     i + 1 ≤ P := h.lt_of_ne hi hne
 
 theorem AgreeL.rd_next_of_eq (h : AgreeL P b1 b2) {i : Nat} (hi : i ≤ P) {c : UInt8}
-    (hc : Prim.rd b1 i = c) (hc0 : c ≠ 10) : i + 1 ≤ P :=
+    (hc : Prim.rd b1 i = c) (hc0 : stp c = false) : i + 1 ≤ P :=
   h.rd_next hi (by rw [hc]; exact hc0)
 
 /-! ### scans -/
@@ -140,7 +157,8 @@ theorem skipSpaces_of_not_space (b : Bytes) (f i : Nat) (h : Prim.isSpace (Prim.
   | zero => rfl
   | succ f => simp only [Prim.skipSpaces, h, Bool.false_eq_true, if_false]
 
-theorem run_agree (h : AgreeL P b1 b2) (p : UInt8 → Bool) (hp : p 10 = false) : ∀ (f i : Nat), i ≤ P →
+theorem run_agree (h : AgreeL P b1 b2) (p : UInt8 → Bool) (hp : p 10 = false) (hp' : p 13 = false) :
+    ∀ (f i : Nat), i ≤ P →
     Prim.strtodLen.run b1 p f i = Prim.strtodLen.run b2 p f i ∧ Prim.strtodLen.run b1 p f i ≤ P := by
   intro f
   induction f with
@@ -150,8 +168,7 @@ theorem run_agree (h : AgreeL P b1 b2) (p : UInt8 → Bool) (hp : p 10 = false) 
     simp only [Prim.strtodLen.run]
     rw [← h.prd hi]
     by_cases hs : p (Prim.rd b1 i) = true
-    · have hne : Prim.rd b1 i ≠ 10 := by
-        intro h0; rw [h0, hp] at hs; exact absurd hs (by decide)
+    · have hne : stp (Prim.rd b1 i) = false := not_stp_of hp hp' hs
       simp only [hs, if_true]
       exact ih (i + 1) (h.rd_next hi hne)
     · simp only [hs]
@@ -170,10 +187,8 @@ theorem digitsOfBase_agree (h : AgreeL P b1 b2) (base : Nat) : ∀ (f i acc : Na
     cases hd : Prim.digitVal (Prim.rd b1 i) with
     | none => exact ⟨rfl, hi⟩
     | some d =>
-      have hne : Prim.rd b1 i ≠ 10 := by
-        intro h0
-        have h00 : Prim.digitVal 10 = none := by decide
-        rw [h0, h00] at hd; cases hd
+      have hne : stp (Prim.rd b1 i) = false :=
+        not_stp_of (p := fun b => (Prim.digitVal b).isSome) (by decide) (by decide) (by simp [hd])
       simp only
       by_cases hlt : d < base
       · simp only [hlt, if_true]
@@ -243,16 +258,19 @@ theorem strtolTo_agree (h : AgreeL P b1 b2) (w off base : Nat) (ho : off ≤ P)
 
 /-! ### `strtodLen` -/
 
-theorem dLower_ne_lf {b c : UInt8} (hc : c ≠ 10) (h : (dLower b == c) = true) : b ≠ 10 := by
-  intro h0
-  subst h0
-  have : dLower 10 = 10 := by decide
-  rw [this] at h
-  have h' : (10 : UInt8) = c := by simpa using h
-  exact hc h'.symm
+theorem dLower_ne_lf {b c : UInt8} (hc : stp c = false) (h : (dLower b == c) = true) : stp b = false := by
+  cases hs : stp b with
+  | false => rfl
+  | true =>
+    have h' : dLower b = c := by simpa using h
+    rcases stp_cases hs with rfl | rfl
+    · have : dLower 10 = 10 := by decide
+      rw [this] at h'; subst h'; exact absurd hc (by decide)
+    · have : dLower 13 = 13 := by decide
+      rw [this] at h'; subst h'; exact absurd hc (by decide)
 
 theorem wordAux_agree (h : AgreeL P b1 b2) (at_ : Nat) : ∀ (w : List UInt8) (k : Nat),
-    (∀ c ∈ w, c ≠ 10) → at_ + k ≤ P →
+    (∀ c ∈ w, stp c = false) → at_ + k ≤ P →
     ((w.zipIdx k).all (fun (c, j) => dLower (Prim.rd b1 (at_ + j)) == c) =
       (w.zipIdx k).all (fun (c, j) => dLower (Prim.rd b2 (at_ + j)) == c)) ∧
     ((w.zipIdx k).all (fun (c, j) => dLower (Prim.rd b1 (at_ + j)) == c) = true →
@@ -275,7 +293,7 @@ theorem wordAux_agree (h : AgreeL P b1 b2) (at_ : Nat) : ∀ (w : List UInt8) (k
       omega
     · simp [hc]
 
-theorem dWord_agree (h : AgreeL P b1 b2) (w : List UInt8) (hw : ∀ c ∈ w, c ≠ 10) {i : Nat} (hi : i ≤ P) :
+theorem dWord_agree (h : AgreeL P b1 b2) (w : List UInt8) (hw : ∀ c ∈ w, stp c = false) {i : Nat} (hi : i ≤ P) :
     dWord b1 w i = dWord b2 w i ∧ (dWord b1 w i = true → i + w.length ≤ P) := by
   have := wordAux_agree h i w 0 hw (by omega)
   exact this
@@ -292,17 +310,17 @@ theorem dSign_agree (h : AgreeL P b1 b2) {i0 : Nat} (hi : i0 ≤ P) :
       simp [h43, this]
     · simp [h45, h43, hi]
 
-theorem dFrac_agree (h : AgreeL P b1 b2) (p : UInt8 → Bool) (hp : p 10 = false) (fuel : Nat) {a : Nat}
+theorem dFrac_agree (h : AgreeL P b1 b2) (p : UInt8 → Bool) (hp : p 10 = false) (hp' : p 13 = false) (fuel : Nat) {a : Nat}
     (ha : a ≤ P) : dFrac b1 p fuel a = dFrac b2 p fuel a ∧ dFrac b1 p fuel a ≤ P := by
   unfold dFrac
   rw [← h.prd ha]
   by_cases h46 : Prim.rd b1 a = 46
   · have ha1 := h.rd_next_of_eq ha h46 (by decide)
     simp only [h46, beq_self_eq_true, if_true]
-    exact run_agree h p hp fuel (a + 1) ha1
+    exact run_agree h p hp hp' fuel (a + 1) ha1
   · simp [h46, ha]
 
-theorem dExp_agree (h : AgreeL P b1 b2) (c1 c2 : UInt8) (h1 : c1 ≠ 10) (h2 : c2 ≠ 10) (fuel : Nat) {b : Nat}
+theorem dExp_agree (h : AgreeL P b1 b2) (c1 c2 : UInt8) (h1 : stp c1 = false) (h2 : stp c2 = false) (fuel : Nat) {b : Nat}
     (hb : b ≤ P) : dExp b1 c1 c2 fuel b = dExp b2 c1 c2 fuel b ∧ dExp b1 c1 c2 fuel b ≤ P := by
   unfold dExp
   rw [← h.prd hb]
@@ -328,7 +346,7 @@ theorem dExp_agree (h : AgreeL P b1 b2) (c1 c2 : UInt8) (h1 : c1 ≠ 10) (h2 : c
     rw [← h.prd hs]
     by_cases hd : isDigit (Prim.rd b1 s) = true
     · simp only [hd, if_true]
-      exact run_agree h isDigit (by decide) fuel s hs
+      exact run_agree h isDigit (by decide) (by decide) fuel s hs
     · simp [hd, hb]
   · have hc' : ¬ ((Prim.rd b1 b == c1) = true ∨ (Prim.rd b1 b == c2) = true) := by simpa using hc
     simp only [hc', if_false]
@@ -361,9 +379,9 @@ theorem dBody_hex_agree (h : AgreeL P b1 b2) (off : Nat) (ho : off ≤ P) (fuel 
       dExp b2 112 80 fuel (dFrac b2 Prim.isHexDigit fuel (Prim.strtodLen.run b2 Prim.isHexDigit fuel (i1 + 2))) - off) ∧
     off + (dExp b1 112 80 fuel (dFrac b1 Prim.isHexDigit fuel
       (Prim.strtodLen.run b1 Prim.isHexDigit fuel (i1 + 2))) - off) ≤ P := by
-  have ha := run_agree h Prim.isHexDigit (by decide) fuel (i1 + 2) hi2
+  have ha := run_agree h Prim.isHexDigit (by decide) (by decide) fuel (i1 + 2) hi2
   rw [← ha.1]
-  have hb := dFrac_agree h Prim.isHexDigit (by decide) fuel ha.2
+  have hb := dFrac_agree h Prim.isHexDigit (by decide) (by decide) fuel ha.2
   rw [← hb.1]
   have he := dExp_agree h 112 80 (by decide) (by decide) fuel hb.2
   rw [← he.1]
@@ -383,10 +401,10 @@ theorem dBody_dec_agree (h : AgreeL P b1 b2) (off : Nat) (ho : off ≤ P) (fuel 
       let b := dFrac b1 isDigit fuel a
       let nd := (a - i1) + (if Prim.rd b1 a == 46 then b - (a + 1) else 0)
       if nd == 0 then 0 else dExp b1 101 69 fuel b - off) ≤ P := by
-  have ha := run_agree h isDigit (by decide) fuel i1 hi
+  have ha := run_agree h isDigit (by decide) (by decide) fuel i1 hi
   simp only
   rw [← ha.1]
-  have hb := dFrac_agree h isDigit (by decide) fuel ha.2
+  have hb := dFrac_agree h isDigit (by decide) (by decide) fuel ha.2
   rw [← hb.1, ← h.prd ha.2]
   have he := dExp_agree h 101 69 (by decide) (by decide) fuel hb.2
   rw [← he.1]
